@@ -53,9 +53,10 @@ prop('C05', contracts=['c05_purge', 'c04_complete'],
      explanation='PROVED for every tree and state: purge withdraws the target from todo/doing/do of every descendant, changes no other target, no non-descendant, only removes; Hand._translate maps None/True/False to invalid/success/failure; Hand._res on a non-success reply never calls schedule.update, lets no node\'s pending set grow, leaves every other target untouched, and records exactly one history entry with the outcome, target, task and run id (schedule.complete). BOUNDED ONLY: the worker side (cluster.execute mapping exceptions to outcomes), interplay across arrival orders.',
      trusted_base=[ELEMENT, 'desc* as an uninterpreted relation constrained by true facts of the least fixed point (reflexive, step, inversion witness)'],
      assumptions=[A1, A4, A5])
-prop('C06', contracts=[],
-     technique='not decided deductively yet: bounded histories on a real shelve store (labelled bounded)',
-     explanation='BOUNDED ONLY: store/load histories against a dictionary model written from the statement; no obligation is discharged for this property',
+prop('C06', contracts=['c06_names'],
+     technique=TECH + 'the primary key built by Interface.__to_key, the load rule of Interface._load (loop invariants) and the injectivity of versioned names (string lemma, cvc5); store/load histories on a real store as bounded stand-in',
+     explanation='PROVED: Interface.__to_key returns (run, id of the target, id of the task, id of construct(algorithm name, task id, the algorithm\'s CURRENT version), id of construct(state-vector name, alg id, its current version), id of construct(value name, sv id, that value\'s current version)); LEMMA: construct is injective on (name, parent id, version) under A3, so keys of different targets, authors or versions of any element differ; Interface._load (plain load) fills each value of each of its state vectors from the entry with exactly that key when present, otherwise from an entry with the same identity tail of the highest run, and leaves the value untouched when no entry has that identity; state vectors of other data sets are untouched. BOUNDED ONLY: pickle round trip of the contents (encode/decode), the algref branch, remove/version-bump/reopen histories.',
+     trusted_base=['util.append assigns one id per constructed name (C08)', 'decode of a blob is a function of the primary entry', 'str(int) digits / Version.asstring digits-and-dots (lemma hypotheses)'],
      assumptions=[A3, A6, A7, A8])
 prop('C07', contracts=['c07_store'],
      technique=TECH + 'db.util.move and the Func.set branch of comms.Worker.do proved over an abstract file system with a statement-boundary (crash point) invariant; the novelty reports of Interface._update/_update_msv by loop invariants; real crash injection as bounded stand-in',
